@@ -320,7 +320,7 @@ def run(rep, repo, tier):
     rep.assumptions += ['A5 argparse contracts: store default None; store_true default False; required=True; parser.error does not return',
                         'an accepted argument set of a type = documented required parameters present with in-range values, any applicable optional parameter present or absent']
     pf = repo.method('Instance_options_parser', 'parse')
-    specs = argparse_table(pf.node)
+    specs = argparse_table(pf.node, repo)
     table = {a.dest: a for a in specs}
     # ---- R1 ----
     for dest, (flag, typ) in spec.GEN_FLAGS.items():
